@@ -19,7 +19,12 @@ def _classify(fn, s):
     try:
         r = fn(s)
         return None
-    except SyntaxError:
+    except SyntaxError as e:
+        # "a syntax error (with the offending position)": line 1, and the offset points at the text the error carries -- in the
+        # coordinates of the stripped string, which is what the lexer works on
+        st = s.strip()
+        if st and not (e.lineno == 1 and isinstance(e.offset, int) and 1 <= e.offset <= len(st) + 1 and isinstance(e.text, str) and st[e.offset - 1:] == e.text):
+            return f"SyntaxError-without-a-consistent-position(lineno={e.lineno}, offset={e.offset}, text={e.text!r})"
         return None
     except sel.SelectorError:
         return None
